@@ -53,6 +53,13 @@ type Tap struct {
 // New creates a tap bound to a simulated world (may be nil for real TCP).
 func New(n *simnet.Net) *Tap { return &Tap{Net: n, KeepBodies: true} }
 
+// SetKeepBodies switches copying of request bodies (safe while serving).
+func (t *Tap) SetKeepBodies(v bool) {
+	t.mu.Lock()
+	t.KeepBodies = v
+	t.mu.Unlock()
+}
+
 // Invocations returns a snapshot.
 func (t *Tap) Invocations() []*Inv {
 	t.mu.Lock()
@@ -125,7 +132,10 @@ func (m *monHandler) Handle(resp tq.Response, req tq.Request) {
 	t := m.tap
 	inv := &Inv{Conn: connOf(req), Session: uint32(req.Header.SessionID), Seq: int(req.Header.SeqNo), Type: int(req.Header.Type),
 		HandlerID: m.id, Header: req.Header}
-	if t.KeepBodies {
+	t.mu.Lock()
+	keep, recov, gate := t.KeepBodies, t.Recover, t.Gate
+	t.mu.Unlock()
+	if keep {
 		inv.Body = append([]byte{}, req.Body...)
 	}
 	if t.Net != nil {
@@ -135,7 +145,7 @@ func (m *monHandler) Handle(resp tq.Response, req tq.Request) {
 	t.invs = append(t.invs, inv)
 	t.mu.Unlock()
 	defer func() {
-		if t.Recover {
+		if recov {
 			if p := recover(); p != nil {
 				t.mu.Lock()
 				inv.Panic = fmt.Sprint(p)
@@ -150,8 +160,8 @@ func (m *monHandler) Handle(resp tq.Response, req tq.Request) {
 			t.mu.Unlock()
 		}
 	}()
-	if t.Gate != nil {
-		t.Gate(inv)
+	if gate != nil {
+		gate(inv)
 	}
 	m.inner.Handle(&monResponse{Response: resp, tap: t, inv: inv, parent: m.id}, req)
 }
